@@ -101,37 +101,8 @@ func (g *gen) genNode(depth int, allowRef bool) *Node {
 						}
 					}
 					o.Or = append(o.Or, m)
-				} else if r.Intn(8) == 0 {
-					o.Or = append(o.Or, &Node{Kind: "lit", Lit: "n", Form: []string{"cobj", "carr", "cany"}[r.Intn(3)], MinL: -1, MaxL: -1})
 				} else {
-					a := &Node{Kind: "lit", Lit: []string{"i", "f", "s", "b", "n"}[r.Intn(5)], MinL: -1, MaxL: -1}
-					switch a.Lit {
-					case "i", "f":
-						if r.Intn(2) == 0 {
-							a.Min = []string{"-5", "0", "1", "1.5", "2", "-1.5", "-0.5", "-12.5"}[r.Intn(8)]
-							a.MinX = r.Intn(3) == 0
-							a.MinXF = !a.MinX && r.Intn(4) == 0
-						}
-						if r.Intn(2) == 0 {
-							a.Max = []string{"1", "2", "7", "1.5", "100", "-1.4", "-0.25", "-12.49"}[r.Intn(8)]
-							a.MaxX = r.Intn(3) == 0
-							a.MaxXF = !a.MaxX && r.Intn(4) == 0
-						}
-					case "s":
-						if r.Intn(2) == 0 {
-							a.MinL = r.Intn(3)
-						}
-						if r.Intn(2) == 0 {
-							a.MaxL = 1 + r.Intn(3)
-						}
-					}
-					if r.Intn(5) == 0 {
-						a.Nullable = true
-					}
-					if r.Intn(4) == 0 {
-						a.Form = "ruleset"
-					}
-					o.Or = append(o.Or, a)
+					o.Or = append(o.Or, g.inlineMember())
 				}
 			}
 			if r.Intn(10) == 0 { // the same member twice
@@ -230,6 +201,43 @@ func (g *gen) genNode(depth int, allowRef bool) *Node {
 	default:
 		return &Node{Kind: "any"}
 	}
+}
+
+// inlineMember: an or member that is not a reference: a type string ("object", "array", "any", a scalar type) or a
+// rule-set over a scalar type.
+func (g *gen) inlineMember() *Node {
+	r := g.r
+	if r.Intn(8) == 0 {
+		return &Node{Kind: "lit", Lit: "n", Form: []string{"cobj", "carr", "cany"}[r.Intn(3)], MinL: -1, MaxL: -1}
+	}
+	a := &Node{Kind: "lit", Lit: []string{"i", "f", "s", "b", "n"}[r.Intn(5)], MinL: -1, MaxL: -1}
+	switch a.Lit {
+	case "i", "f":
+		if r.Intn(2) == 0 {
+			a.Min = []string{"-5", "0", "1", "1.5", "2", "-1.5", "-0.5", "-12.5"}[r.Intn(8)]
+			a.MinX = r.Intn(3) == 0
+			a.MinXF = !a.MinX && r.Intn(4) == 0
+		}
+		if r.Intn(2) == 0 {
+			a.Max = []string{"1", "2", "7", "1.5", "100", "-1.4", "-0.25", "-12.49"}[r.Intn(8)]
+			a.MaxX = r.Intn(3) == 0
+			a.MaxXF = !a.MaxX && r.Intn(4) == 0
+		}
+	case "s":
+		if r.Intn(2) == 0 {
+			a.MinL = r.Intn(3)
+		}
+		if r.Intn(2) == 0 {
+			a.MaxL = 1 + r.Intn(3)
+		}
+	}
+	if r.Intn(5) == 0 {
+		a.Nullable = true
+	}
+	if r.Intn(4) == 0 {
+		a.Form = "ruleset"
+	}
+	return a
 }
 
 // String tokens whose content looks like another JSON kind (the model says: a quoted token is a string, full stop),
@@ -586,7 +594,11 @@ func printNode(n *Node, indent int, prefix, comma string, optional bool) []strin
 	pad := strings.Repeat("  ", indent)
 	switch n.Kind {
 	case "or":
-		return []string{pad + prefix + orExample(n) + comma + rules(n, optional)}
+		ex := n.Ex // set by the stream of converging graphs (an example of a type the node reaches)
+		if ex == "" {
+			ex = orExample(n)
+		}
+		return []string{pad + prefix + ex + comma + rules(n, optional)}
 	case "lit":
 		return []string{pad + prefix + exampleTok(n) + comma + rules(n, optional)}
 	case "any":
@@ -1336,45 +1348,58 @@ type tableResult struct {
 	cases []oneCase
 }
 
-func showInput(rootText string, typeTexts map[string]string, doc string) string {
+func showInput(names []string, rootText string, typeTexts map[string]string, doc string) string {
 	var sb strings.Builder
 	sb.WriteString("SCHEMA:\n" + rootText + "\nTYPES (AddType name = text):")
-	for _, nm := range typeNames {
+	for _, nm := range names {
 		sb.WriteString("\n@" + nm + " = " + typeTexts[nm])
 	}
 	sb.WriteString("\nDOCUMENT: " + doc)
 	return sb.String()
 }
 
-// oneTable generates one type table + root, checks it, and evaluates 12 documents.
-func oneTable(seed int64) tableResult {
+// oneTable generates one type table + root, checks it, and evaluates 12 documents. dag: the table comes from the
+// stream of converging reference graphs (dag.go), which is legal by construction: a refusal by Check is not skipped.
+func oneTable(seed int64, dag bool) tableResult {
 	g := &gen{r: rand.New(rand.NewSource(seed))}
 	var res tableResult
-	types := map[string]*Node{}
+	names := typeNames
+	var types map[string]*Node
+	var root *Node
 	typeTexts := map[string]string{}
 	env := "(env"
-	for _, nm := range typeNames {
-		types[nm] = g.genNode(2, true)
+	if dag {
+		var st []string
+		names, types, root, st = g.genDag()
+		res.stats = append(res.stats, "tables_converging_stream")
+		res.stats = append(res.stats, st...)
+	} else {
+		types = map[string]*Node{}
+		for _, nm := range names {
+			types[nm] = g.genNode(2, true)
+		}
+		root = g.genNode(3, true)
+		for _, nm := range names {
+			fixTypeRules(types[nm], types)
+		}
+		fixTypeRules(root, types)
 	}
-	root := g.genNode(3, true)
-	for _, nm := range typeNames {
-		fixTypeRules(types[nm], types)
-	}
-	fixTypeRules(root, types)
-	for _, nm := range typeNames {
+	for _, nm := range names {
 		typeTexts[nm] = strings.Join(printNode(types[nm], 0, "", "", false), "\n")
 		env += " (t " + nm + " " + g.sx(types[nm]) + ")"
 	}
 	rootText := strings.Join(printNode(root, 0, "", "", false), "\n")
-	if v := validate(rootText, typeTexts, typeNames, "1"); strings.HasPrefix(v, "CHECKERR") || strings.HasPrefix(v, "ADDERR") || strings.HasPrefix(v, "PANIC") {
+	if v := validate(rootText, typeTexts, names, "1"); strings.HasPrefix(v, "CHECKERR") || strings.HasPrefix(v, "ADDERR") || strings.HasPrefix(v, "PANIC") {
 		w := strings.SplitN(v, " ", 3)
-		res.stats = append(res.stats, "check_failed")
-		if w[0] == "PANIC" {
-			res.stats = append(res.stats, "check_failed_PANIC")
-		} else {
-			res.stats = append(res.stats, "check_failed_"+w[0]+"_"+w[1])
+		code := "PANIC"
+		if w[0] != "PANIC" {
+			code = w[0] + "_" + w[1]
 		}
-		return res
+		if !dag {
+			res.stats = append(res.stats, "check_failed", "check_failed_"+code)
+			return res
+		}
+		res.stats = append(res.stats, "converging_table_refused", "converging_table_refused_"+code)
 	}
 	f := feat{adds: map[string]bool{}, rules: map[string]bool{}, orForms: map[string]bool{}}
 	f.walk(root, types, map[string]bool{}, map[string]bool{})
@@ -1428,11 +1453,11 @@ func oneTable(seed int64) tableResult {
 		}
 		g.look = false
 		dt := g.docText(d) // fixes the tokens: must precede docSx
-		v := validate(rootText, typeTexts, typeNames, dt)
+		v := validate(rootText, typeTexts, names, dt)
 		if g.look {
 			st = append(st, "doc_with_lookalike_string")
 			for k := 1; k < 8; k++ {
-				if w := validate(rootText, typeTexts, typeNames, dt); w != v {
+				if w := validate(rootText, typeTexts, names, dt); w != v {
 					v = fmt.Sprintf("UNSTABLE: call 1 = %s, call %d = %s", v, k+1, w)
 					break
 				}
@@ -1462,9 +1487,9 @@ func oneTable(seed int64) tableResult {
 		res.cases = append(res.cases, oneCase{
 			line:  prefix + " val " + env + " " + rootSx + " " + docSx(d),
 			impl:  v,
-			input: showInput(rootText, typeTexts, dt),
+			input: showInput(names, rootText, typeTexts, dt),
 			// an `or` rule is reachable from the root
-			nontrivial: f.or || f.orForms["node_type_rule"],
+			nontrivial: f.or || f.orForms["node_type_rule"] || dag,
 			stats:      st,
 			class:      caseClass,
 		})
@@ -1473,24 +1498,30 @@ func oneTable(seed int64) tableResult {
 }
 
 func Run(args []string) {
-	rep := vh.NewReport(command, "random type tables as in sem-or (4 named types, root of depth<=3, recursive references, nullable, additionalProperties, scalar rules with odd number spellings and the same document pools: bounds hit exactly / one unit off in every RFC 8259 spelling, strings at decoded length n-1, n, n+1, look-alike strings) where every second scalar position carries an or rule with 2-3 members (one table in ten repeats a member) in EVERY form the loader distinguishes: \"@t\" / {type: \"@t\"} (no type is created) / {type: \"@t\", nullable: true} / a type string (\"integer\" …, also \"object\", \"array\", \"any\") / a rule-set {type, min, max, exclusiveMinimum / exclusiveMaximum true or false, minLength, maxLength, nullable: true} / a rule-set with the type only; `nullable: true` on the or node itself (one in five); one reference node in three is written `<scalar example of the type> // {type: \"@t\"}` with nullable: true half of the time (F-33: such a node and a nullable or node admitted every value of the example's kind); JSight text -> real AddType/Check/Validate; the request carries the members AS WRITTEN ((or nul (N t) (TR t) (T rs) (RS rs))) and the Lean loader model ORS.loadAll creates the anonymous types and the name list, then VK.validateT with Rules.litOK (driver semor); 12 documents per table: 5 sampled (through a random member), 5 sampled then mutated, 2 random; tables refused by Check are skipped and counted by error code; nontrivial = an or rule or a {type: \"@t\"} node with a scalar example is reachable from the root; K-C09-cycle class as in sem-or")
+	rep := vh.NewReport(command, "random type tables as in sem-or (4 named types, root of depth<=3, recursive references, nullable, additionalProperties, scalar rules with odd number spellings and the same document pools: bounds hit exactly / one unit off in every RFC 8259 spelling, strings at decoded length n-1, n, n+1, look-alike strings) where every second scalar position carries an or rule with 2-3 members (one table in ten repeats a member) in EVERY form the loader distinguishes: \"@t\" / {type: \"@t\"} (no type is created) / {type: \"@t\", nullable: true} / a type string (\"integer\" …, also \"object\", \"array\", \"any\") / a rule-set {type, min, max, exclusiveMinimum / exclusiveMaximum true or false, minLength, maxLength, nullable: true} / a rule-set with the type only; `nullable: true` on the or node itself (one in five); one reference node in three is written `<scalar example of the type> // {type: \"@t\"}` with nullable: true half of the time (F-33: such a node and a nullable or node admitted every value of the example's kind); JSight text -> real AddType/Check/Validate; the request carries the members AS WRITTEN ((or nul (N t) (TR t) (T rs) (RS rs))) and the Lean loader model ORS.loadAll creates the anonymous types and the name list, then VK.validateT with Rules.litOK (driver semor); 12 documents per table: 5 sampled (through a random member), 5 sampled then mutated, 2 random; tables refused by Check are skipped and counted by error code; ONE MORE TABLE PER TEN comes from the stream of CONVERGING reference graphs: 4-6 types, the last one or two scalar types with a consistent rule set, every other type ti in rule form (<example> // {type: \"@tj\"} with or without nullable / <example> // {or: [...]} with members \"@tj\" / {type: \"@tj\"} / {type: \"@tj\", nullable: true} / inline scalar rule-sets) over types tj, j > i within the next three (acyclic by construction, 2-4 levels of references), and a value position (root / array item / property, with scalar or shortcut-reference siblings and additionalProperties) that names 2-3 types such that at least one type is reached by two or more chains of rule-form references (diamond, a type listed next to a type that refers to it, one type by two member forms; stats dag_*); examples are examples of a scalar type the node reaches, so such a table is legal: it is NOT skipped when Check refuses it, the refusal is the verdict compared with the model; nontrivial = an or rule or a {type: \"@t\"} node with a scalar example is reachable from the root; K-C09-cycle class as in sem-or")
 	initStrLen()
 	r := vh.NewRand(salt)
 	nTables := vh.Pick(12000, 200000)
+	r2 := vh.NewRand(salt + 7) // the stream of converging graphs has its own seeds: the random tables are the same with and without it
 	const batch = 4000
 	for done := 0; done < nTables; done += batch {
 		n := batch
 		if nTables-done < n {
 			n = nTables - done
 		}
-		seeds := make([]int64, n)
+		nDag := n / 10
+		seeds := make([]int64, n+nDag)
 		for i := range seeds {
-			seeds[i] = r.Int63()
+			if i < n {
+				seeds[i] = r.Int63()
+			} else {
+				seeds[i] = r2.Int63()
+			}
 		}
-		results := make([]tableResult, n)
+		results := make([]tableResult, n+nDag)
 		var wg sync.WaitGroup
-		next := make(chan int, n)
-		for i := 0; i < n; i++ {
+		next := make(chan int, n+nDag)
+		for i := 0; i < n+nDag; i++ {
 			next <- i
 		}
 		close(next)
@@ -1499,7 +1530,7 @@ func Run(args []string) {
 			go func() {
 				defer wg.Done()
 				for i := range next {
-					results[i] = oneTable(seeds[i])
+					results[i] = oneTable(seeds[i], i >= n)
 				}
 			}()
 		}
